@@ -18,7 +18,7 @@ theorem tip_rule (cfg : Config) (hnew : cfg.matches .new = true) (hundo : cfg.ma
     ((processBlock cfg s b none).2.1 = [] ∧ (processBlock cfg s b none).1.lastSent = s.lastSent) ∨
     (s.db.find b.id = none ∧ triggers cfg s b = true ∧
       ∃ l, (processBlock cfg s b none).1.lastSent = some l ∧ l.ref = b.ref) :=
-  let ⟨_, _, _, h, _, _⟩ := processBlock_step cfg hnew hundo hirr s P b hI hok.1 hok.2.1 hok.2.2.1 hok.2.2.2
+  let ⟨_, _, _, h, _, _⟩ := processBlock_step cfg hnew hundo hirr s P b hI hok.1 hok.2.1 hok.2.2.1 hok.2.2.2.1 hok.2.2.2.2
   h
 
 /-- the tip is the top of the consumer's chain -/
